@@ -1,6 +1,7 @@
 package main
 
 import (
+	"os"
 	"encoding/hex"
 	"fmt"
 	"math"
@@ -173,6 +174,7 @@ type Runner struct {
 
 	shadowHash string
 	expectHash string
+	shadowStores map[string]string
 	lastEvents []abci.Event
 	haltPre    *Snap
 	curBlock   *Block
@@ -463,6 +465,14 @@ func (r *Runner) runBlockShadowThenCrash(b *Block) {
 
 func (r *Runner) runBlock(b *Block, shadow bool) {
 	w := r.W
+	if dir := os.Getenv("VERIF_TRACEKV"); dir != "" && !r.branchMode {
+		// diagnostics: every KV operation of this block execution goes to a file
+		f, err := os.Create(fmt.Sprintf("%s/kv-b%d-shadow%v.log", dir, r.BlockIdx, shadow))
+		if err == nil {
+			w.App.CommitMultiStore().SetTracer(f)
+			defer func() { w.App.CommitMultiStore().SetTracer(nil); f.Close() }()
+		}
+	}
 	// the snapshot before the block is taken at the previous block's header
 	preCtx := w.CtxAt(w.Height, w.Now, nil)
 	pre := w.TakeSnap(preCtx)
@@ -624,6 +634,7 @@ func (r *Runner) runBlock(b *Block, shadow bool) {
 			r.branchStores = r.storeDigests()
 		} else {
 			r.shadowHash = hex.EncodeToString(w.App.CommitMultiStore().WorkingHash())
+			r.shadowStores = r.allStoreDigests()
 		}
 		return
 	}
@@ -638,10 +649,27 @@ func (r *Runner) runBlock(b *Block, shadow bool) {
 		r.blockHashes = append(r.blockHashes, hex.EncodeToString(id.Hash))
 	}
 	if r.expectHash != "" {
+		// crash before commit: the re-execution must reproduce the lost execution. The comparison is on
+		// the byte content of every KV store. The IAVL root hash is compared too but a mismatch with
+		// identical content is only counted: iavl v1.0.1 gives a tree that was reloaded from disk after a
+		// version containing a Remove a different shape/hash than the live tree for the same later writes
+		// (reproduced on the library alone, DESIGN 6.3) - a dependency artefact, not a property of the
+		// module's transitions.
 		r.Eval("C19.c")
 		got := hex.EncodeToString(id.Hash)
-		if got != r.expectHash {
-			r.Violate("C19.c", "crash-reexec", fmt.Sprintf("re-execution after crash gives app hash %s, lost execution had %s", got, r.expectHash))
+		var differ []string
+		now := r.allStoreDigests()
+		for _, name := range allStoreNames {
+			if now[name] != r.shadowStores[name] {
+				differ = append(differ, name)
+			}
+		}
+		if len(differ) > 0 {
+			r.Violate("C19.c", "crash-reexec", fmt.Sprintf("re-execution after a crash before commit differs from the lost execution in the content of stores %v (app hash %s vs %s)", differ, got, r.expectHash))
+		} else if got != r.expectHash {
+			r.Probe("c19_iavl_root_hash_differs_after_reload_with_identical_content")
+		} else {
+			r.Probe("c19_crash_reexec_same_app_hash")
 		}
 		r.expectHash = ""
 	}
